@@ -1,6 +1,7 @@
 """C18 - upload checksums equal the providers' definitions for every fragmentation.
 Tie: real ChunkedSha256 / Md5 (through write_all) vs the Gallina model on every composition of small inputs;
-the providers' own hasher() at k*4MiB-1, k*4MiB, k*4MiB+1 vs hashlib (pins the block size and the choice)."""
+the providers' own hasher() at k*4MiB-1, k*4MiB, k*4MiB+1 vs hashlib (pins the block size and the choice);
+real `vsb upload` of streams longer than 4 MiB through the real gpg to an honest emulated provider (the hashers as the encryptor feeds them)."""
 import hashlib
 import itertools
 
@@ -115,7 +116,8 @@ def run(ctx):
     maxlen = 12 if thorough else 10
     ctx.rule = ("exhaustive: block sizes 1..5 x input lengths 0..%d x every composition of the length into write calls "
                 "(plus variants with empty writes inserted); MD5 wrapper on the same compositions for lengths 0..%d; "
-                "random larger cases; the three providers' own hasher() at k*4MiB-1, k*4MiB, k*4MiB+1 against hashlib. "
+                "random larger cases; the three providers' own hasher() at k*4MiB-1, k*4MiB, k*4MiB+1 against hashlib; real `vsb upload` runs through the real gpg "
+                "of streams longer than one 4 MiB block to an honest emulated provider (the hasher fed by the encryptor's pipe reads). "
                 "A case is non-trivial when the input is non-empty; distinct = distinct (block size, write sizes)."
                 % (maxlen, 8))
     cases = []
@@ -179,6 +181,8 @@ def run(ctx):
             ctx.violation("provider-hasher", "%s hasher() over %d bytes (writes of %s) gives %s, the provider's definition gives %s"
                           % (name, total, sizes, got, want),
                           {"case": sexp.dumps(c), "provider": name, "total": total, "write_sizes": sizes})
+    if not ctx.has_failing_input():
+        upload_part(ctx)
     ctx.sample({"check": "provider-hasher", "case": {"provider": "Dropbox", "total": 4 * MiB + 1, "writes": [65536]}})
     ctx.extra["exhaustive"] = True
     ctx.assumptions += [
@@ -187,7 +191,94 @@ def run(ctx):
     ]
 
 
+def upload_part(ctx):
+    """the hashers where they are used: a real `vsb upload` of a backup whose encrypted stream is longer than one 4 MiB block, through the
+    real gpg, to an honest emulated provider (stores what it receives, computes its checksum by the provider's published definition -
+    re-computed here with hashlib).  The stream reaches the hasher in the fragments the encryptor's pipe reads produce (gpg writes 15 + 1
+    bytes, then 8 KiB blocks: fragments straddle every block end).  vsb compares its own checksum with the provider's: the upload must
+    succeed, and a 'Checksum mismatch' is the property failing on this very stream."""
+    import os
+    import glob
+    from vlib import build, cloud, runs, slevel
+    from checks import C04
+    build.ensure_vsb()
+    build.ensure_vsbh()
+    rng = ctx.rng
+    thorough = ctx.tier == "thorough"
+    plan = [("dropbox", 4 * MiB + 300000)]
+    if thorough:
+        plan += [("dropbox", 8 * MiB + 12345), ("dropbox", 4 * MiB - 2000), ("yandex", 4 * MiB + 300000), ("google", 4 * MiB + 300000)]
+    for provider, big in plan:
+        with slevel.Sandbox("c18") as sb:
+            # a lean scene (no history driver: the run's manifest is not this check's subject): one backup of a tree with one incompressible file
+            w = runs.World(sb, rng, 3, 3)
+            top = os.path.join(w.src, w.items[0])
+            w.write_file(os.path.join(top, "keeper"), b"k" * 300)
+            w.write_file(os.path.join(top, "bulk.bin"), rng.randbytes(big))
+            now = runs.BASE + 3600
+            res = w.backup(now)
+            if res["exit"] != 0:
+                ctx.violation("upload-run", "correspondence upload-run no longer checks: the backup run preparing the upload exits %d: %s" % (res["exit"], res["errors"][:2]),
+                              {"provider": provider, "file_size": big}, failing_input=False)
+                return
+            group = sorted(os.listdir(w.st))[-1]
+            backups = sorted(b for b in os.listdir(os.path.join(w.st, group)) if not b.startswith("."))
+            cloud.write_upload_config(sb, w.st, provider, passphrase="simple")
+            base = {cloud.CLOUD_ROOT: {"type": "folder"}}
+            gd = sb.path("gpgrec")
+            os.makedirs(gd)
+            emu = cloud.Emu(sb.path("emu"), init={"dropbox": base, "yandex": base, "google": base})
+            env = {"PATH": C04.SHIM_DIR + ":" + os.environ["PATH"], "VERIF_GPG_DIR": gd, "VERIF_GPG_MODE": "tee", "VERIF_REAL_GPG": cloud.REAL_GPG}
+            try:
+                r = cloud.run_upload(sb, emu, now=now + 500, timeout=300, extra_env=env)
+                r["blobs"] = {}
+                for pth, e in emu.files(provider).items():
+                    for x in (e if isinstance(e, list) else [e]):
+                        if x.get("type") == "file":
+                            r["blobs"].setdefault(pth, []).append(emu.object_bytes(x))
+            finally:
+                emu.stop()
+                cloud.kill_agents(sb)
+            r["outs"] = {f: open(f, "rb").read() for f in glob.glob(os.path.join(gd, "out.*"))}
+
+            class sc:
+                pass
+            sc.backups = backups
+            sc.final_path = staticmethod(lambda b: "%s/%s/%s.tar.gpg" % (cloud.CLOUD_ROOT, group, b))
+            ctx.evaluations += 1
+            ctx.count("upload." + provider)
+            outs = sorted(r["outs"].values(), key=len)
+            sizes = [len(o) for o in outs]
+            for n in sizes:
+                ctx.count("upload.stream." + ("over-one-block" if n > 4 * MiB else "within-one-block"))
+            ctx.nontrivial.add(("upload", provider, tuple(sizes)))
+            errs = slevel.errors_of(r["out"])
+            label = "%s, encryptor output of %s bytes" % (provider, sizes)
+            if any("hecksum" in e for e in errs):
+                # which stream: the one whose object is missing under its final name
+                missing = [b for b in sc.backups if not r["blobs"].get(sc.final_path(b))]
+                want = [(dropbox_def(4 * MiB, o) if provider == "dropbox" else hashlib.md5(o).hexdigest()) for o in outs]
+                ctx.violation("upload-checksum", "%s: vsb's checksum of the stream it sent differs from the provider's definition over those bytes "
+                              "(definition: %s); the upload of %s fails with %r" % (label, [w[:16] + "..." for w in want], missing, [e for e in errs if "hecksum" in e][:1]),
+                              {"provider": provider, "file_size": big, "stream_sizes": sizes, "output": r["out"][-800:]})
+                return
+            if r["timed_out"] or r["exit"] != 0 or errs:
+                ctx.violation("upload-run", "correspondence upload-run no longer checks: %s: the undisturbed upload does not complete: exit %s, %s" % (label, r["exit"], errs[:2]),
+                              {"provider": provider, "file_size": big, "output": r["out"][-800:]}, failing_input=False)
+                return
+            # the emulator's own arithmetic, checked against hashlib on the stored objects
+            for b in sc.backups:
+                for blob in r["blobs"].get(sc.final_path(b), []):
+                    if blob not in outs:
+                        ctx.violation("upload-run", "correspondence upload-run no longer checks: %s: a stored object of %d bytes is not an encryptor output" % (label, len(blob)),
+                                      {"provider": provider, "file_size": big}, failing_input=False)
+                        return
+
+
 def replay(ctx, doc):
+    if "case" not in doc:
+        print("replay: re-run ./check C18 with the same VERIF_SEED; the upload (provider, file size, stream sizes) is in the replay file")
+        return 0
     c = sexp.loads(doc["case"])
     r = impl.run_lines([c])[0]
     if c[0] == 1800:
